@@ -325,6 +325,7 @@ func corpusDart() []*modSpec {
 		mk("dart-map-key-from-package", "", "package models\n\nimport \"example.com/org/models/sub\"\n\ntype S struct {\n\tByColor map[sub.Color]string\n\tById map[sub.ID][]int\n}\n", modFile{"sub/sub.go", "package sub\n\ntype Color int\n\nconst (\n\tRed Color = iota\n\tGreen\n)\n\ntype ID int64\n"}),
 		mk("dart-union-member-names", "", "package models\n\ntype Shape interface{ isShape() }\n\ntype Circle struct{ R int }\ntype square struct{ Side int }\ntype hTTPShape struct{ U string }\ntype N int\n\nfunc (Circle) isShape() {}\nfunc (square) isShape() {}\nfunc (hTTPShape) isShape() {}\nfunc (N) isShape() {}\n\ntype Drawing struct {\n\tMain Shape\n\tAll []Shape\n}\n"),
 		mk("dart-named-basic-from-package", "", "package models\n\nimport \"example.com/org/models/sub\"\n\ntype S struct {\n\tX sub.N\n\tT sub.T\n}\n", modFile{"sub/sub.go", "package sub\n\ntype N int\n\ntype T struct{ A bool }\n"}),
+		mk("dart-embedded-struct-with-containers-in-two-packages", "", "package models\n\nimport (\n\t\"example.com/org/models/a\"\n\t\"example.com/org/models/b\"\n)\n\ntype S struct {\n\tA a.A\n\tB b.B\n}\n", modFile{"base/base.go", "package base\n\ntype Base struct {\n\tTags []string\n\tCounts map[string]int\n}\n"}, modFile{"a/a.go", "package a\n\nimport \"example.com/org/models/base\"\n\ntype A struct {\n\tbase.Base\n\tX int\n}\n"}, modFile{"b/b.go", "package b\n\nimport \"example.com/org/models/base\"\n\ntype B struct {\n\tbase.Base\n\tY bool\n}\n"}),
 		mk("dart-union-hidden", "dart-implements-union-not-emitted", "package models\n\ntype A struct{ X int }\nfunc (A) isU() {}\n\ntype S struct {\n\tA A\n\thidden Holder\n}\n", modFile{"other.go", "package models\n\ntype U interface{ isU() }\n\ntype Holder struct{ V U }\n"}),
 	}
 }
